@@ -51,7 +51,7 @@ def _chirp(n):
     return np.sin(1.0 + 1.7 * k + 0.3 * k * k)
 
 
-def theta_lattice(n, bound, rng, n_generic, f32_exp_cap=None):
+def theta_lattice(n, bound, rng, n_generic, f32_exp_cap=None, f32_onesided=False):
     """finite pattern x scale lattice in R^n (DESIGN 2.4), K even. Returns (K,n) float64 array."""
     pats = []
     if n <= 4:
@@ -90,6 +90,10 @@ def theta_lattice(n, bound, rng, n_generic, f32_exp_cap=None):
         scales = sorted({min(s, f32_exp_cap) for s in scales})
     scales = sorted(set(scales))
     pts = np.concatenate([pats * s for s in scales if s <= bound + 1e-12], axis=0)
+    if f32_exp_cap is not None and f32_onesided and bound > f32_exp_cap:
+        # softplus-type maps in float32: only the NEGATIVE side underflows beyond the cap (softplus(-x)^2 leaves the IEEE range);
+        # the positive side is exact up to the stated bound (softplus(x) = x + O(exp(-x))), so it stays in the lattice
+        pts = np.concatenate([pts, np.clip(pats * bound, -f32_exp_cap, bound)], axis=0)
     if len(pts) % 2:
         pts = pts[:-1]
     return pts
@@ -574,7 +578,7 @@ def run_func(case, out, env):
     n = spec.nparam(c)
     G = 2 if env.tier == 'quick' else 6
     cap = 40.0 if (c['prec'] == 32 and spec.exp_type) else None
-    pts = theta_lattice(n, spec_bound(spec, c), env.rng('C01', c['map'], n), G, cap)
+    pts = theta_lattice(n, spec_bound(spec, c), env.rng('C01', c['map'], n), G, cap, f32_onesided=c.get('method') in ('softplus', 'cholesky'))
     # points outside the mathematical domain of the map (zero block of a quotient, rank-deficient frame) are not fed in
     kap0 = spec.kappa(to_np64(make_theta(pts, c)), c)
     out.count('outside_math_domain', int((~np.isfinite(kap0)).sum()))
